@@ -21,6 +21,11 @@ KeyTexts     == {<<"a">>, <<"1","e","3">>, <<"1">>} \cup (IF Depth2 THEN {<<"t",
 
 Color  == TEnum(<<<<"R","E","D">>, <<"G","R","E","E","N">>>>)
 Color2 == TEnum(<<<<"A">>, <<"B">>>>)
+RPath  == TReg("Rpath")    RTd == TReg("Rtd")    RUuid == TReg("Ruuid")    RCplx == TReg("Rcomplex")
+RegTexts(name) == CASE name = "Rpath" -> {<<"/","x">>, <<"a","/","b">>, <<"N","o","n","e">>, <<"1","e","3">>}
+                    [] name = "Rtd"   -> {<<"0",":","0","0",":","0","1">>, <<"1",":","0","2",":","0","3">>}
+                    [] name = "Ruuid" -> {<<"1","2","3","4","5","6","7","8","-","1","2","3","4","-","5","6","7","8","-","1","2","3","4","-","5","6","7","8","1","2","3","4","5","6","7","8">>}
+                    [] OTHER          -> {<<"(","1","+","2","j",")">>, <<"3","j">>}
 LitT   == TLiteral(<<Str(<<"a">>), Str(<<"1","e","3">>), IntV(<<"1">>), NullV>>)
 DC1    == TDC(<< <<<<"a">>, TInt, IntV(<<"1">>)>>, <<<<"s">>, TStr, Str(<<"x">>)>> , <<<<"o">>, TOpt(TStr), NullV>> >>)
 \* TLC orders the fields of a record by the order in which it first met their names, so a set that holds records of
@@ -39,6 +44,9 @@ Depth1 == {Tag(TOpt(LeavesSeq[i])) : i \in 1..Len(LeavesSeq)}
      \cup SeqSet(<<TDict(TStr, TStr), TDict(TStr, TInt), TDict(TStr, Color), TDict(TInt, TStr)>>)
      \cup SeqSet(<<TOpt(DC1), TList(DC1), TDict(TStr, DC1)>>)
      \cup SeqSet(<<TUnion(<<Color, Color2>>), TUnion(<<Color2, Color>>), TUnion(<<TTupleE(Color2), TList(Color)>>)>>)
+     \* registered types serialised with str(): None ITEMS inside containers must be written null, not 'None'
+     \cup SeqSet(<<RPath, TOpt(RPath), TList(TOpt(RPath)), TDict(TStr, TOpt(RTd)), TTuple(<<TOpt(RUuid), TInt>>), TList(TOpt(RCplx)), TList(RTd), TDict(TStr, TOpt(RPath)),
+                  TTuple(<<TOpt(RTd), TOpt(RPath)>>)>>)
 Depth2Types == SeqSet(<<TOpt(TList(TStr)), TOpt(TList(TInt)), TList(TOpt(TStr)), TList(TOpt(TInt)), TDict(TStr, TList(TStr)), TList(TDict(TStr, TInt)),
                 TUnion(<<TInt, TList(TInt)>>), TUnion(<<TStr, TList(TStr)>>), TUnion(<<TList(TStr), TStr>>), TList(TTuple(<<TInt, TStr>>)),
                 TDict(TStr, TUnion(<<TInt, TStr>>)), TDict(TStr, TOpt(TFloat)), TOpt(TDict(TStr, TStr)), TList(TUnion(<<TStr, TFloat>>)),
@@ -60,6 +68,7 @@ InputsOf(t) ==
     [] t.c = "float" -> {Tag(Flt(r)) : r \in FloatReprs} \cup {Tag(IntV(<<"1">>))}
     [] t.c = "bool"  -> {Tag(BoolV(TRUE)), Tag(BoolV(FALSE))}
     [] t.c = "none"  -> {Tag(NullV)}
+    [] t.c = "reg"   -> {Tag(Str(s)) : s \in RegTexts(t.p[1])}
     [] t.c = "enum"  -> {Tag(Str(t.p[i])) : i \in 1..Len(t.p)} \cup {Tag(Str(<<"a","b","c">>))}
     [] t.c = "literal" -> {Tag(t.p[i]) : i \in 1..Len(t.p)} \cup {Tag(Str(<<"z","z">>)), Tag(Str(<<"1">>))}
     [] t.c = "union" -> UNION {InputsOf(t.p[i]) : i \in 1..Len(t.p)}
